@@ -709,6 +709,9 @@ func (c *hctx) pathLvalue(l ast.Expr) bool {
 	if c.cellSel(sel) != nil {
 		return true
 	}
+	if c.textPathLvalue(sel) {
+		return true // e.X of a struct-valued variable (fn_heap_text.go)
+	}
 	return c.eptrVar(sel.X) != nil
 }
 
@@ -857,6 +860,7 @@ func (c *hctx) callExtern(name string, f *types.Func, v *ast.CallExpr, pre *[]hb
 	x := c.externVar(name, ft, v)
 	s := x.name
 	for _, a := range v.Args {
+		c.textExternObjArg(a, v)
 		y, _ := c.expr(a, pre)
 		s += " " + paren(y)
 	}
